@@ -581,7 +581,11 @@ func (p *producer) buildTx(o Op, extraAttrs []transaction.Attribute) (tx *transa
 		switch o.X % 3 {
 		case 0:
 			till := int64(bc.BlockHeight()) + 3 + int64(o.Y)
-			script = callScript(nativehashes.GasToken, "transfer", a.ScriptHash(), nativehashes.Notary, (20+o.N)*1000000, []any{nil, till})
+			amount := (20 + o.N) * 1000000
+			if o.Y%4 == 3 {
+				amount *= 4 // (enough for the attribute fee of a 255-key request)
+			}
+			script = callScript(nativehashes.GasToken, "transfer", a.ScriptHash(), nativehashes.Notary, amount, []any{nil, till})
 			desc = fmt.Sprintf("notary deposit a%d till %d", o.A, till)
 		case 1:
 			till := int64(bc.BlockHeight()) + 2 + int64(o.Y)
@@ -700,7 +704,13 @@ func (p *producer) notaryAssistedTx(o Op) (*transaction.Transaction, string) {
 	tx.Nonce = p.nonce
 	tx.ValidUntilBlock = bc.BlockHeight() + 1 + uint32(o.Y%3)
 	tx.Signers = []transaction.Signer{{Account: nativehashes.Notary, Scopes: transaction.None}, {Account: a.ScriptHash(), Scopes: transaction.Global}}
-	tx.Attributes = []transaction.Attribute{{Type: transaction.NotaryAssistedT, Value: &transaction.NotaryAssisted{NKeys: 1}}}
+	// the number of keys the notary service is paid for: usually one; sometimes none, a few, or the top of the range (the
+	// fee for it is (NKeys+1) times the per-key price and needs a large deposit)
+	nkeys := []uint8{1, 1, 0, 3, 255, 254}[(o.Y/3)%6]
+	if nkeys >= 254 && dep.Int64() < 27_00000000 {
+		nkeys = 1
+	}
+	tx.Attributes = []transaction.Attribute{{Type: transaction.NotaryAssistedT, Value: &transaction.NotaryAssisted{NKeys: nkeys}}}
 	tx.SystemFee = 3_000_000
 	tx.Scripts = []transaction.Witness{{InvocationScript: make([]byte, 66), VerificationScript: []byte{}}, {InvocationScript: make([]byte, 66), VerificationScript: a.Script()}}
 	tx.NetworkFee = int64(nio.GetVarSize(tx))*bc.FeePerByte() + bc.CalculateAttributesFee(tx) + 8_000_000
@@ -712,7 +722,7 @@ func (p *producer) notaryAssistedTx(o Op) (*transaction.Transaction, string) {
 	w0 := transaction.Witness{InvocationScript: append([]byte{byte(opcode.PUSHDATA1), keys.SignatureLen}, sig...), VerificationScript: []byte{}}
 	w1 := transaction.Witness{InvocationScript: a.SignHashable(uint32(bc.GetConfig().Magic), tx), VerificationScript: a.Script()}
 	tx.Scripts = []transaction.Witness{w0, w1}
-	return tx, fmt.Sprintf("notary-assisted tx sponsored by a%d (deposit %s)", o.A, dep)
+	return tx, fmt.Sprintf("notary-assisted tx sponsored by a%d (deposit %s, %d keys)", o.A, dep, nkeys)
 }
 
 // drawElection: number of accounts that register as candidates (and get votes) in the election blocks. A committee is
